@@ -473,6 +473,7 @@ pub fn run_case(c: &mut Case, case: ConnCase) {
             c.l.count("connections_checked");
             c.l.add("requests_served", ch.served as u64);
             c.l.add("reads_abandoned_while_pending", invs.iter().map(|i| u64::from(i.abandoned_reads)).sum());
+            c.l.add("echo_handler_copy_steps", invs.iter().map(|i| u64::from(i.echo_polls)).sum());
             c.l.add("management_replies_matched", ch.replies_seen as u64);
             if served < case.reqs.len() {
                 c.l.count("connections_closed_without_keep_conn");
@@ -510,10 +511,11 @@ pub fn run(ctx: &Ctx, evidence: Option<&PathBuf>) -> i32 {
     ctx.gate("vectored_write_cut_in_header", 20);
     ctx.gate("pending_replies_verified_before_epilogue", 20);
     ctx.gate("reads_abandoned_while_pending", 20);
+    ctx.gate("echo_handler_copy_steps", 200);
     ctx.finish(
         "exploration",
         "connections of 1..5 requests (all roles, every flag byte, bodies empty..multi-record, management / unknown / stray records) through Token::run on a deterministic waker-driven executor; \
-         open-loop peer releasing request i+1 only after EndRequest i, in pieces of 1..n bytes; handler scripts drawn from {read to end / n reads of 0..1000 bytes / fill_buf+consume (also beyond the buffer) / nothing, set_stream / writeable() between streams, \
+         open-loop peer releasing request i+1 only after EndRequest i, in pieces of 1..n bytes; handler scripts drawn from {read to end / n reads of 0..1000 bytes / fill_buf+consume (also beyond the buffer) / nothing / copy_buf-style echo to an output stream (reader polled first on every poll, also while the handler's own write or flush is pending), set_stream / writeable() between streams, \
          0..6 writes of {0,1,7,8,9,100,1000,65535,65536,70000} bytes to stdout/stderr, flushes, every ExitStatus variant}; transport reads return 1..n bytes or Pending, writes accept 1..n bytes (vectored: cuts inside header / at seams / inside padding) or Pending, flush Pending. \
          Oracle over the decoded transport log + handler log: per request exactly one invocation with the model's environment, bytes read are a prefix of E(s) (all of it when read to end); output = handler payloads per stream in order, one empty Stdout + one empty Stderr, one EndRequest(id, documented status mapping); \
          management replies match a prefix of the model's reply list in arrival order, each once; replies provably pending at close time (handler read past the query) precede the end records; invocation i+1 happens iff request i had keep-conn; quiescence with Token::run unfinished = stalled. \
